@@ -121,6 +121,8 @@ Local Notation without_suffix_nc_loop := (without_suffix_nc_loop M).
 Local Notation with_word := (with_word M TH PG OV jk true).
 Local Notation indent_loop := (indent_loop M TH PG OV jk true).
 Local Notation indented1 := (indented1 M TH PG OV jk true).
+Local Notation esc_loop := (esc_loop M TH PG OV jk true).
+Local Notation escaped1 := (escaped1 M TH PG OV jk true).
 Local Notation append_s := (append_s M TH PG OV jk true).
 Local Notation append_ch := (append_ch M TH PG OV jk true).
 Local Notation append_c := (append_c M TH PG OV jk true).
@@ -631,6 +633,44 @@ Proof.
   - destruct (indent_loop_spec (src_of pad) (abs s) Pok Bp false empty1 I0) as (X1 & X2).
     { rewrite S0. cbn [src_of snd]. rewrite Lp, (lenN_abs s I). nia. }
     split; trivial. rewrite X2, A0. reflexivity.
+Qed.
+
+(* ---------------------------------------------------------------- WithCharsEscaped *)
+
+Lemma esc_loop_spec seps esc l : forall pe pc r,
+  inv r -> slen r + 2 * lenN l + 1 <= LIM ->
+  inv (esc_loop seps esc pe pc l r) /\ abs (esc_loop seps esc pe pc l r) = esc_fold seps esc pe pc l (abs r).
+Proof.
+  induction l as [|cur t IH]; intros pe pc r I B; cbn [StrModel.esc_loop esc_fold]; [split; trivial|].
+  rewrite lenN_cons in B.
+  set (pre := negb pe && (is_sep seps cur || ((cur =? esc) && negb (nthN 0 t =? 0) && negb (nthN 0 t =? esc) && negb (is_sep seps (nthN 0 t))))).
+  set (r1 := if pre then append_ch r esc else r).
+  assert (R1 : inv r1 /\ abs r1 = (if pre then abs r ++ [esc] else abs r) /\ slen r1 <= slen r + 1).
+  { unfold r1. destruct pre.
+    - destruct (append_ch_spec r esc I) as (X1 & X2); [unfold LIM in *; lia|]. splits; trivial.
+      rewrite <- (lenN_abs _ X1), X2, lenN_app, (lenN_abs r I), lenN_cons, lenN_nil. lia.
+    - splits; trivial. lia. }
+  destruct R1 as (I1 & A1 & L1).
+  destruct (append_ch_spec r1 cur I1) as (I2 & A2); [unfold LIM in *; lia|].
+  rewrite <- A1, <- A2. apply IH; trivial.
+  rewrite <- (lenN_abs _ I2), A2, lenN_app, (lenN_abs r1 I1), lenN_cons, lenN_nil. lia.
+Qed.
+
+Lemma escaped_spec s seps esc :
+  subj_ok s -> 3 * slen s + 1 <= LIM ->
+  inv (escaped1 s seps esc) /\ abs (escaped1 s seps esc) = l0_escaped (abs s) seps esc.
+Proof.
+  intros Sb B. pose proof Sb as [I Bs]. unfold StrModel.escaped1, l0_escaped.
+  destruct (esc =? 0); [now apply copy_spec|].
+  destruct ((count_if (is_sep seps) (abs s) =? 0) && (count_ch esc (abs s) =? 0)); [now apply copy_spec|].
+  destruct inv_empty1 as (I0 & S0 & A0 & _).
+  set (n := u32 (slen s + u32 (2 * u32 (count_if (is_sep seps) (abs s) + count_ch esc (abs s))))).
+  destruct (prealloc_safe empty1 n I0) as (Ip & Ap). rewrite A0 in Ap.
+  set (r0 := snd (StrModel.prealloc M TH PG OV jk true empty1 n)) in *.
+  assert (L0 : slen r0 = 0) by (rewrite <- (lenN_abs r0 Ip), Ap; reflexivity).
+  destruct (esc_loop_spec seps esc (abs s) false 0 r0 Ip) as (X1 & X2).
+  - rewrite L0, (lenN_abs s I). lia.
+  - split; trivial. now rewrite X2, Ap.
 Qed.
 
 End Prod.
